@@ -1,6 +1,8 @@
 import Pdpy11.Driver.Proto
 import Pdpy11.Driver.Rad50
 import Pdpy11.Driver.Bk
+import Pdpy11.Driver.Insn
+import Pdpy11.Driver.Ea
 namespace Pdpy11.Driver
 
 def handle (line : String) : String :=
@@ -13,6 +15,8 @@ def handle (line : String) : String :=
     | "r50dec" => handleR50Dec args
     | "bkenc" => handleBkEnc args
     | "bkdec" => handleBkDec args
+    | "insn" => handleInsn args
+    | "ea" => handleEa args
     | "ping" => "pong"
     | _ => "bad-op"
 
